@@ -351,7 +351,7 @@ func (x *Engine) frameObligations(fr *Frame, fs *FuncSpec, ret *State, env map[s
 					allowed[k] = append(allowed[k], &Addr{Kind: "row", Key: k, Ref: v.T})
 				}
 				continue
-			case "all", "cells":
+			case "all", "cells", "allfields":
 				ks, ok := x.modKeyStatic(fs, m)
 				if ok {
 					for _, k := range ks {
